@@ -861,6 +861,43 @@ fn op_try_reserve(cx: &mut SCtx, s: usize, n: usize) {
         }
     }
 }
+/// rayon on sets, outside the recorded history (on a clone, so that the model's state is not
+/// involved): par_extend and from_par_iter (the by-reference flavour needs T: Copy, which the tracked element type is not) build the same set as the
+/// sequential extend / from_iter - for equal elements the one already there, else the first in
+/// input order, stays
+#[cfg(feature = "par")]
+fn par_extend_monitor(cx: &mut SCtx, s: usize, keys: Vec<u64>, pool_ix: usize) {
+    use rayon::prelude::*;
+    if !cx.monitors {
+        return;
+    }
+    cx.bump("op:set_par_extend");
+    let items: Vec<(u64, u64)> = keys.iter().map(|k| (*k, cx.kid())).collect();
+    let mut want: BTreeMap<u64, u64> = cx.refs[s].clone();
+    let mut fresh: BTreeMap<u64, u64> = BTreeMap::new();
+    for (k, kid) in &items {
+        want.entry(*k).or_insert(*kid);
+        fresh.entry(*k).or_insert(*kid);
+    }
+    let want: Vec<(u64, u64, u64)> = want.iter().map(|(k, kid)| (*k, *kid, 0)).collect();
+    let fresh: Vec<(u64, u64, u64)> = fresh.iter().map(|(k, kid)| (*k, *kid, 0)).collect();
+    let mk = |items: &Vec<(u64, u64)>| -> Vec<K> { items.iter().map(|(k, kid)| K::new(*k, *kid)).collect() };
+    let pool = crate::par::pool(pool_ix);
+    let src = cx.sets[s].as_ref().unwrap();
+    // owned elements
+    let mut a: Set = src.clone();
+    let objs = mk(&items);
+    pool.install(|| a.par_extend(objs));
+    if sorted_kids(a.iter()) != want || a.len() != want.len() {
+        vio("C15", format!("HashSet::par_extend of {} items into a set of {}: {} elements, sequential extend gives {} (or another element object was kept)", items.len(), src.len(), a.len(), want.len()));
+    }
+    // from_par_iter
+    let objs = mk(&items);
+    let c: Set = pool.install(|| objs.into_par_iter().collect());
+    if sorted_kids(c.iter()) != fresh || c.len() != fresh.len() {
+        vio("C15", format!("HashSet::from_par_iter of {} items: {} elements, sequential from_iter gives {} (or another element object was kept)", items.len(), c.len(), fresh.len()));
+    }
+}
 fn op_drop(cx: &mut SCtx, s: usize) {
     run(cx, format!("drop {}", s), "drop", &[s], None, |cx| {
         cx.sets[s] = None;
@@ -912,6 +949,14 @@ pub fn history(cx: &mut SCtx, maxops: u64) {
         #[cfg(feature = "ser")]
         if cx.ser && cx.rng.below(4) == 0 {
             ser_op(cx, s, universe);
+            continue;
+        }
+        #[cfg(feature = "par")]
+        if cx.par && cx.rng.below(12) == 0 {
+            let n = cx.rng.below(40);
+            let ks: Vec<u64> = (0..n).map(|_| cx.rng.below(universe + 4)).collect();
+            let p = cx.rng.below(6) as usize;
+            par_extend_monitor(cx, s, ks, p);
             continue;
         }
         match cx.rng.below(100) {
